@@ -46,12 +46,16 @@ def decList (S : Nat) : Nat → List Nat → Option (List Nat × List Nat)
       | some (vs, r') => some (v :: vs, r')
 
 /-- read VInts until the input is exhausted (`uncompress_vint_unsorted_until_end`);
-a trailing incomplete VInt is dropped -/
-def decAll (S : Nat) (bs : List Nat) : List Nat :=
-  match _h : dec S bs with
-  | none => []
-  | some (v, r) => if r.length < bs.length then v :: decAll S r else [v]
-termination_by bs.length
+a trailing incomplete VInt is dropped (the fuel `bs.length` always suffices: every VInt
+consumes at least one byte) -/
+def decAllFuel (S : Nat) : Nat → List Nat → List Nat
+  | 0, _ => []
+  | f + 1, bs =>
+    match dec S bs with
+    | none => []
+    | some (v, r) => v :: decAllFuel S f r
+
+def decAll (S : Nat) (bs : List Nat) : List Nat := decAllFuel S bs.length bs
 
 /-- the stop bit / radix the code uses (both VInt flavours) -/
 abbrev STOP : Nat := Gen.Postings.VINT_STOP_BIT
